@@ -13,11 +13,11 @@ func GetNextBlock(data []byte) ([]byte, int, error) {
 	if err != nil {
 		return nil, 0, err
 	}
-	length := int(l)
-	totalLength := length + n
-	if totalLength > len(data) {
+	if l > uint64(len(data)-n) {
 		return nil, 0, errors.New("varint: not enough data for given block length")
 	}
+	length := int(l)
+	totalLength := length + n
 	return data[n:totalLength], totalLength, nil
 }
 
